@@ -40,13 +40,15 @@ pub fn decls(r: &mut Rng, c: &ModelCfg) -> Vec<VarDecl> {
     let n = 1 + r.below(c.max_vars);
     let names = ["x", "y", "z", "w", "u", "v"];
     (0..n).map(|i| {
-        let ty = match r.below(if c.unbounded { 9 } else { 7 }) {
+        let ty = match r.below(if c.unbounded { 11 } else { 7 }) {
             0 | 1 => VariableType::Boolean,
             2 | 3 => { let lo = r.range(-3, 2) as i32; VariableType::IntegerRange(lo, lo + r.range(0, 4) as i32) }
             4 => { let lo = r.range(-3, 2) as f64; VariableType::Real(lo, lo + r.range(0, 8) as f64 / 2.0) }
             5 => { let lo = r.range(0, 2) as f64; VariableType::NonNegativeReal(lo, lo + r.range(0, 8) as f64 / 2.0) }
             6 => VariableType::Real(-(r.range(0, 3) as f64) - 0.5, r.range(0, 3) as f64 + 0.5),
             7 => VariableType::Real(f64::NEG_INFINITY, f64::INFINITY),
+            8 => VariableType::Real(r.range(-3, 0) as f64, f64::INFINITY),
+            9 => VariableType::Real(f64::NEG_INFINITY, r.range(0, 3) as f64),
             _ => VariableType::NonNegativeReal(0.0, f64::INFINITY),
         };
         let name = if c.hostile && r.chance(1, 6) {
